@@ -1,5 +1,6 @@
 import EmsModel.Core.Mask
 /-! Lemmas about two-dimensional boolean masks (`Core/Mask.lean`). Core Lean only. -/
+set_option linter.unusedSimpArgs false
 namespace Ems.Clip
 namespace Mask
 
@@ -11,7 +12,7 @@ theorem get_ofFn (ny nx : Nat) (f : Nat → Nat → Bool) (j i : Nat) :
   unfold get ofFn
   by_cases hj : j < ny
   · by_cases hi : i < nx
-    · simp [List.getD_eq_getElem?_getD, List.getElem?_map, List.getElem?_range, hj, hi]
+    · simp [List.getD_eq_getElem?_getD, hj, hi]
     · simp [hi]
   · simp [hj]
 
@@ -56,5 +57,221 @@ theorem anyWindow_iff (m : Mask) (j0 i0 h w : Nat) :
   · rintro ⟨dj, hdj, di, hdi, hg⟩; exact ⟨dj, di, hdj, hdi, hg⟩
   · rintro ⟨dj, di, hdj, hdi, hg⟩; exact ⟨dj, hdj, di, hdi, hg⟩
 
+theorem get_blur (m : Mask) (s j i : Nat) :
+    (m.blur s).get j i = true ↔
+      j < m.ny ∧ i < m.nx ∧ ∃ j' i', j' ≤ j + s ∧ j ≤ j' + s ∧ i' ≤ i + s ∧ i ≤ i' + s ∧ m.get j' i' = true := by
+  unfold blur
+  rw [get_ofFn]
+  simp only [Bool.and_eq_true, decide_eq_true_eq, Bool.or_eq_true, anyWindow_iff, get_pad]
+  constructor
+  · rintro ⟨hj, hi, h | ⟨dj, di, hdj, hdi, h1, h2, hg⟩⟩
+    · exact ⟨hj, hi, j, i, by omega, by omega, by omega, by omega, h⟩
+    · exact ⟨hj, hi, j + dj - s, i + di - s, by omega, by omega, by omega, by omega, hg⟩
+  · rintro ⟨hj, hi, j', i', h1, h2, h3, h4, hg⟩
+    refine ⟨hj, hi, Or.inr ⟨j' + s - j, i' + s - i, by omega, by omega, by omega, by omega, ?_⟩⟩
+    have e1 : j + (j' + s - j) - s = j' := by omega
+    have e2 : i + (i' + s - i) - s = i' := by omega
+    rw [e1, e2]; exact hg
+
+theorem get_or2 (a b : Mask) (j i : Nat) :
+    (a.or2 b).get j i = true ↔ j < a.ny ∧ i < a.nx ∧ (a.get j i = true ∨ b.get j i = true) := by
+  unfold or2; rw [get_ofFn]; simp
+
+theorem get_pad_iff (m : Mask) (bj aj bi ai j i : Nat) :
+    (m.pad bj aj bi ai).get j i = true ↔ bj ≤ j ∧ bi ≤ i ∧ m.get (j - bj) (i - bi) = true := by
+  rw [get_pad]; simp
+
+@[simp] theorem pad_ny (m : Mask) (bj aj bi ai : Nat) : (m.pad bj aj bi ai).ny = bj + m.ny + aj := rfl
+@[simp] theorem pad_nx (m : Mask) (bj aj bi ai : Nat) : (m.pad bj aj bi ai).nx = bi + m.nx + ai := rfl
+@[simp] theorem or2_ny (a b : Mask) : (a.or2 b).ny = a.ny := rfl
+@[simp] theorem or2_nx (a b : Mask) : (a.or2 b).nx = a.nx := rfl
+
+theorem smear_ny (m : Mask) (py px : Bool) : (m.smear py px).ny = m.ny + py.toNat := by
+  cases py <;> cases px <;> simp [smear, axisPaddings, reduceOr] <;> omega
+
+theorem smear_nx (m : Mask) (py px : Bool) : (m.smear py px).nx = m.nx + px.toNat := by
+  cases py <;> cases px <;> simp [smear, axisPaddings, reduceOr] <;> omega
+
+theorem get_smear_ff (m : Mask) (j i : Nat) :
+    (m.smear false false).get j i = m.get j i := by
+  simp [smear, axisPaddings, reduceOr, get_pad]
+
+theorem get_smear_ft (m : Mask) (j i : Nat) :
+    (m.smear false true).get j i = true ↔ (1 ≤ i ∧ m.get j (i - 1) = true) ∨ m.get j i = true := by
+  simp only [smear, axisPaddings, reduceOr, get_or2, get_pad_iff, List.flatMap_cons, List.flatMap_nil,
+    List.map_cons, List.map_nil, List.append_nil, List.foldl_cons, List.foldl_nil, if_true, if_false,
+    Bool.false_eq_true, pad_ny, pad_nx, Bool.and_eq_true, Bool.or_eq_true, decide_eq_true_eq,
+    Nat.sub_zero, Nat.zero_le, true_and, Nat.zero_add, Nat.add_zero, List.cons_append, List.nil_append]
+  constructor
+  · rintro ⟨_, _, h⟩; exact h
+  · intro h
+    rcases h with ⟨h1, h2⟩ | h2
+    · have := get_lt_ny h2; have := get_lt_nx h2
+      exact ⟨by omega, by omega, Or.inl ⟨h1, h2⟩⟩
+    · have := get_lt_ny h2; have := get_lt_nx h2
+      exact ⟨by omega, by omega, Or.inr h2⟩
+
+theorem get_smear_tf (m : Mask) (j i : Nat) :
+    (m.smear true false).get j i = true ↔ (1 ≤ j ∧ m.get (j - 1) i = true) ∨ m.get j i = true := by
+  simp only [smear, axisPaddings, reduceOr, get_or2, get_pad_iff, List.flatMap_cons, List.flatMap_nil,
+    List.map_cons, List.map_nil, List.append_nil, List.foldl_cons, List.foldl_nil, if_true, if_false,
+    Bool.false_eq_true, pad_ny, pad_nx, Bool.and_eq_true, Bool.or_eq_true, decide_eq_true_eq,
+    Nat.sub_zero, Nat.zero_le, true_and, Nat.zero_add, Nat.add_zero, List.cons_append, List.nil_append]
+  constructor
+  · rintro ⟨_, _, h⟩; exact h
+  · intro h
+    rcases h with ⟨h1, h2⟩ | h2
+    · have := get_lt_ny h2; have := get_lt_nx h2
+      exact ⟨by omega, by omega, Or.inl ⟨h1, h2⟩⟩
+    · have := get_lt_ny h2; have := get_lt_nx h2
+      exact ⟨by omega, by omega, Or.inr h2⟩
+
+theorem get_smear_tt (m : Mask) (j i : Nat) :
+    (m.smear true true).get j i = true ↔
+      (1 ≤ j ∧ 1 ≤ i ∧ m.get (j - 1) (i - 1) = true) ∨ (1 ≤ j ∧ m.get (j - 1) i = true) ∨
+      (1 ≤ i ∧ m.get j (i - 1) = true) ∨ m.get j i = true := by
+  simp only [smear, axisPaddings, reduceOr, get_or2, get_pad_iff, List.flatMap_cons, List.flatMap_nil,
+    List.map_cons, List.map_nil, List.append_nil, List.foldl_cons, List.foldl_nil, if_true, if_false,
+    Bool.false_eq_true, pad_ny, pad_nx, or2_ny, or2_nx, Bool.and_eq_true, Bool.or_eq_true, decide_eq_true_eq,
+    Nat.sub_zero, Nat.zero_le, true_and, Nat.zero_add, Nat.add_zero, List.cons_append, List.nil_append]
+  constructor
+  · rintro ⟨_, _, (⟨_, _, (⟨_, _, (h | h)⟩ | h)⟩ | h)⟩
+    · exact Or.inl h
+    · exact Or.inr (Or.inl h)
+    · exact Or.inr (Or.inr (Or.inl h))
+    · exact Or.inr (Or.inr (Or.inr h))
+  · intro h
+    rcases h with ⟨h1, h1', h2⟩ | ⟨h1, h2⟩ | ⟨h1, h2⟩ | h2 <;>
+      (have := get_lt_ny h2; have := get_lt_nx h2; refine ⟨by omega, by omega, ?_⟩)
+    · exact Or.inl ⟨by omega, by omega, Or.inl ⟨by omega, by omega, Or.inl ⟨h1, h1', h2⟩⟩⟩
+    · exact Or.inl ⟨by omega, by omega, Or.inl ⟨by omega, by omega, Or.inr ⟨h1, h2⟩⟩⟩
+    · exact Or.inl ⟨by omega, by omega, Or.inr ⟨h1, h2⟩⟩
+    · exact Or.inr h2
+
+
+/-- pointwise characterisation of `smear_mask` for all four axis choices at once -/
+theorem get_smear (m : Mask) (py px : Bool) (j i : Nat) :
+    (m.smear py px).get j i = true ↔
+      ∃ dj di, dj ≤ py.toNat ∧ di ≤ px.toNat ∧ dj ≤ j ∧ di ≤ i ∧ m.get (j - dj) (i - di) = true := by
+  cases py <;> cases px
+  · rw [get_smear_ff]
+    constructor
+    · intro h; exact ⟨0, 0, by simp, by simp, by omega, by omega, by simpa using h⟩
+    · rintro ⟨dj, di, h1, h2, _, _, hg⟩
+      simp at h1 h2; subst h1 h2; simpa using hg
+  · rw [get_smear_ft]
+    constructor
+    · rintro (⟨h1, h⟩ | h)
+      · exact ⟨0, 1, by simp, by simp, by omega, h1, by simpa using h⟩
+      · exact ⟨0, 0, by simp, by simp, by omega, by omega, by simpa using h⟩
+    · rintro ⟨dj, di, h1, h2, _, h4, hg⟩
+      simp at h1 h2; subst h1
+      have : di = 0 ∨ di = 1 := by omega
+      rcases this with rfl | rfl
+      · exact Or.inr (by simpa using hg)
+      · exact Or.inl ⟨h4, by simpa using hg⟩
+  · rw [get_smear_tf]
+    constructor
+    · rintro (⟨h1, h⟩ | h)
+      · exact ⟨1, 0, by simp, by simp, h1, by omega, by simpa using h⟩
+      · exact ⟨0, 0, by simp, by simp, by omega, by omega, by simpa using h⟩
+    · rintro ⟨dj, di, h1, h2, h3, _, hg⟩
+      simp at h1 h2; subst h2
+      have : dj = 0 ∨ dj = 1 := by omega
+      rcases this with rfl | rfl
+      · exact Or.inr (by simpa using hg)
+      · exact Or.inl ⟨h3, by simpa using hg⟩
+  · rw [get_smear_tt]
+    constructor
+    · rintro (⟨h1, h1', h⟩ | ⟨h1, h⟩ | ⟨h1, h⟩ | h)
+      · exact ⟨1, 1, by simp, by simp, h1, h1', h⟩
+      · exact ⟨1, 0, by simp, by simp, h1, by omega, by simpa using h⟩
+      · exact ⟨0, 1, by simp, by simp, by omega, h1, by simpa using h⟩
+      · exact ⟨0, 0, by simp, by simp, by omega, by omega, by simpa using h⟩
+    · rintro ⟨dj, di, h1, h2, h3, h4, hg⟩
+      simp at h1 h2
+      have a : dj = 0 ∨ dj = 1 := by omega
+      have b : di = 0 ∨ di = 1 := by omega
+      rcases a with rfl | rfl <;> rcases b with rfl | rfl
+      · exact Or.inr (Or.inr (Or.inr (by simpa using hg)))
+      · exact Or.inr (Or.inr (Or.inl ⟨h4, by simpa using hg⟩))
+      · exact Or.inr (Or.inl ⟨h3, by simpa using hg⟩)
+      · exact Or.inl ⟨h3, h4, hg⟩
+
+theorem get_reshape (ny nx : Nat) (flat : List Bool) (j i : Nat) :
+    (reshape ny nx flat).get j i = true ↔ j < ny ∧ i < nx ∧ flat.getD (j * nx + i) false = true := by
+  unfold reshape; rw [get_ofFn]; simp
+
 end Mask
+
+/-- `mask[hits] = True` on a flat array: position `n` ends up set iff it was set or is hit -/
+theorem getD_foldl_set (hits : List Nat) : ∀ (acc : List Bool) (n : Nat),
+    (hits.foldl (fun acc k => acc.set k true) acc).getD n false = true ↔
+      acc.getD n false = true ∨ (n < acc.length ∧ n ∈ hits) := by
+  induction hits with
+  | nil => intro acc n; simp
+  | cons h t ih =>
+    intro acc n
+    rw [List.foldl_cons, ih]
+    simp only [List.length_set, List.getD_eq_getElem?_getD, List.getElem?_set, List.mem_cons]
+    by_cases hn : h = n
+    · subst hn
+      by_cases hl : h < acc.length
+      · simp [hl]
+      · have : acc[h]? = none := List.getElem?_eq_none (by omega)
+        simp [hl, this]
+    · simp [hn]
+      constructor
+      · rintro (h1 | ⟨h1, h2⟩)
+        · exact Or.inl h1
+        · exact Or.inr ⟨h1, Or.inr h2⟩
+      · rintro (h1 | ⟨h1, h2 | h2⟩)
+        · exact Or.inl h1
+        · exact absurd h2.symm hn
+        · exact Or.inr ⟨h1, h2⟩
+
+theorem getD_flatMask (size : Nat) (hits : List Nat) (n : Nat) :
+    (flatMask size hits).getD n false = true ↔ n < size ∧ n ∈ hits := by
+  unfold flatMask
+  rw [getD_foldl_set]
+  have h0 : ¬ ((List.replicate size false).getD n false = true) := by
+    simp only [List.getD_eq_getElem?_getD, List.getElem?_replicate]
+    split <;> simp
+  constructor
+  · rintro (h | h)
+    · exact absurd h h0
+    · simpa using h
+  · intro h; exact Or.inr (by simpa using h)
+
+theorem lin_lt {ny nx j i : Nat} (hj : j < ny) (hi : i < nx) : j * nx + i < ny * nx := by
+  calc j * nx + i < j * nx + nx := by omega
+    _ = (j + 1) * nx := by rw [Nat.add_mul, Nat.one_mul]
+    _ ≤ ny * nx := Nat.mul_le_mul_right _ hj
+
+/-- pointwise characterisation of the grid clip mask in terms of the hit list -/
+theorem get_gridClipMask (ny nx : Nat) (hits : List Nat) (buffer : Int) (j i : Nat) :
+    (gridClipMask ny nx hits buffer).get j i = true ↔
+      j < ny ∧ i < nx ∧ ∃ j' i', j' < ny ∧ i' < nx ∧
+        j' ≤ j + buffer.toNat ∧ j ≤ j' + buffer.toNat ∧ i' ≤ i + buffer.toNat ∧ i ≤ i' + buffer.toNat ∧
+        j' * nx + i' ∈ hits := by
+  unfold gridClipMask
+  by_cases hb : buffer > 0
+  · simp only [hb, if_true, Mask.get_blur, Mask.get_reshape, getD_flatMask]
+    simp only [Mask.reshape, Mask.ofFn_ny, Mask.ofFn_nx]
+    constructor
+    · rintro ⟨hj, hi, j', i', h1, h2, h3, h4, hj', hi', _, hm⟩
+      exact ⟨hj, hi, j', i', hj', hi', h1, h2, h3, h4, hm⟩
+    · rintro ⟨hj, hi, j', i', hj', hi', h1, h2, h3, h4, hm⟩
+      exact ⟨hj, hi, j', i', h1, h2, h3, h4, hj', hi', lin_lt hj' hi', hm⟩
+  · have h0 : buffer.toNat = 0 := by omega
+    simp only [hb, if_false, h0, Nat.add_zero, Mask.get_reshape, getD_flatMask]
+    constructor
+    · rintro ⟨hj, hi, _, hm⟩
+      exact ⟨hj, hi, j, i, hj, hi, Nat.le_refl _, Nat.le_refl _, Nat.le_refl _, Nat.le_refl _, hm⟩
+    · rintro ⟨hj, hi, j', i', hj', hi', h1, h2, h3, h4, hm⟩
+      have : j' = j := by omega
+      have : i' = i := by omega
+      subst_vars
+      exact ⟨hj, hi, lin_lt hj hi, hm⟩
+
 end Ems.Clip
